@@ -41,7 +41,11 @@ def inlinable(facts, k, opaque, caller=None):
         # nobody outside can name the type, the call is resolved statically -- it is a private helper
         st = (f.get("impl_self") or "").split("<")[0]
         adt = facts.adts.get(st)
-        if not (adt and adt.get("vis") != "pub" and not adt.get("reachable")):
+        # .. or a method of a *private trait* of the crate (an extension trait on str / char / Cow: `trait NonEmpty { fn
+        # non_empty(&self) -> ..}`): nobody outside can name the trait, so every call is one of the crate's own
+        tr = facts.traits.get(f.get("impl_trait_def") or "")
+        private_trait = tr is not None and tr.get("vis") not in ("pub", "public") and not tr.get("reachable")
+        if not (adt and adt.get("vis") != "pub" and not adt.get("reachable")) and not private_trait:
             return False
     return True
 
@@ -938,7 +942,57 @@ def inlined_facts(facts, opaque):
     for c in _consumed_closures(j2["bodies"]):
         del j2["bodies"][c]
         report.setdefault(c, []).append("consumed")
+    # likewise a private helper *function* all of whose call sites were spliced in (and which is never used as a value):
+    # what it does is now judged where it is called, with the arguments it is called with (`insert_at(v, index, ..)` with
+    # the index the caller got from the search)
+    for c in _consumed_helpers(facts, j2["bodies"], report):
+        del j2["bodies"][c]
+        report.setdefault(c, []).append("consumed")
     f2 = Facts(j2, facts.path)
     f2.extract_s = getattr(facts, "extract_s", 0)
     f2.inlined = report
     return f2, report
+
+
+def _consumed_helpers(facts, bodies, report):
+    inlined_somewhere = set()
+    for k, lst in report.items():
+        for x in lst:
+            if isinstance(x, str) and x in bodies:
+                inlined_somewhere.add(x)
+    out = []
+    for c in sorted(inlined_somewhere):
+        f = facts.fns.get(c)
+        b = bodies.get(c)
+        if not f or not b or b.get("kind") != "fn":
+            continue
+        if f.get("reachable") or f.get("exported") or f.get("vis") == "public" or "impl_trait" in f or f.get("impl_trait_def"):
+            continue
+        used = False
+        for k2, b2 in bodies.items():
+            if k2 == c:
+                continue
+            for bl in b2["blocks"]:
+                t = bl["term"]
+                if t["t"] == "call":
+                    ce = t["callee"]
+                    r = (ce.get("resolved") or {}).get("path")
+                    if ce.get("path") == c or r == c:
+                        used = True
+                if _fn_value_used(bl, c):
+                    used = True
+            if used:
+                break
+        if not used:
+            out.append(c)
+    return out
+
+
+def _fn_value_used(x, c):
+    if isinstance(x, dict):
+        if x.get("k") == "fn" and (x.get("path") == c or x.get("resolved") == c):
+            return True
+        return any(_fn_value_used(v, c) for v in x.values())
+    if isinstance(x, list):
+        return any(_fn_value_used(v, c) for v in x)
+    return False
